@@ -177,7 +177,10 @@ pub fn run(seed: u64, n: usize, outdir: &str, _corpus: Option<&str>) -> std::io:
             Outcome::Err
         };
         let mat_of = |d: &Outcome<vibrato::Dictionary>| match d {
-            Outcome::Ok(d) => format!("(Ok {})", clist(&conn_matrix(d), |row| clist(row, |c| cz(*c as i64)))),
+            Outcome::Ok(d) => match std::panic::catch_unwind(std::panic::AssertUnwindSafe(|| conn_matrix(d))) {
+                Ok(m) => format!("(Ok {})", clist(&m, |row| clist(row, |c| cz(*c as i64)))),
+                Err(_) => "Panic".to_string(), // a cost lookup panicked
+            },
             Outcome::Err => "Err".to_string(),
             Outcome::Panic => "Panic".to_string(),
         };
